@@ -579,6 +579,9 @@ pub fn run_case(case: &MidiCase, mask: u32, stats: &mut Stats) -> Result<CaseInf
     let mut note_traffic = false;
     let mut cc_traffic = false;
     let mut last_obs = observe(&real);
+    let mut latch_rising = false;
+    let mut latch_falling = false;
+    let mut gate_before = real.gate();
 
     for (step, op) in case.ops.iter().enumerate() {
         match op {
@@ -602,7 +605,8 @@ pub fn run_case(case: &MidiCase, mask: u32, stats: &mut Stats) -> Result<CaseInf
                     let gate = real.gate();
                     if !matches!(op, MidiOp::PollFalling) {
                         let r = real.rising_gate();
-                        let m = model.poll_rising();
+                        let _ = model.poll_rising();
+                        let m = std::mem::replace(&mut latch_rising, false);
                         stats.count("edge_polls", 1);
                         if r && !gate {
                             return Err(Failure::new("C05.rising_implies_gate", step, "rising_gate() returned true while gate() is false".into()));
@@ -611,13 +615,14 @@ pub fn run_case(case: &MidiCase, mask: u32, stats: &mut Stats) -> Result<CaseInf
                             return Err(Failure::new(
                                 "C05.rising",
                                 step,
-                                format!("rising_gate() = {}, expected {} (gate {}, held {:?}, retrigger {})", r, m, gate, model.held, model.retrigger),
+                                format!("rising_gate() = {}, expected {} (gate {}, outstanding notes {:?}, retrigger {})", r, m, gate, model.held, model.retrigger),
                             ));
                         }
                     }
                     if !matches!(op, MidiOp::PollRising) {
                         let r = real.falling_gate();
-                        let m = model.poll_falling();
+                        let _ = model.poll_falling();
+                        let m = std::mem::replace(&mut latch_falling, false);
                         stats.count("edge_polls", 1);
                         if r && gate {
                             return Err(Failure::new("C05.falling_implies_low", step, "falling_gate() returned true while gate() is true".into()));
@@ -640,6 +645,23 @@ pub fn run_case(case: &MidiCase, mask: u32, stats: &mut Stats) -> Result<CaseInf
                     if let Some(m) = dec.feed(b) {
                         n_msgs += 1;
                         let own = m.status & 0x0F == ch;
+                        // C05 latches follow the gate transitions that are actually observed (so this oracle does not
+                        // depend on C04): falling is set when gate() goes true -> false and cleared by a note-on; rising
+                        // is set by a note-on that raises the gate (or any note-on in retrigger mode) and cleared when
+                        // the gate drops
+                        let gate_after = real.gate();
+                        let is_note_on = own && m.status & 0xF0 == 0x90 && m.d2 > 0;
+                        if is_note_on {
+                            latch_falling = false;
+                            if (!gate_before && gate_after) || (model.retrigger && gate_after) {
+                                latch_rising = true;
+                            }
+                        }
+                        if gate_before && !gate_after {
+                            latch_falling = true;
+                            latch_rising = false;
+                        }
+                        gate_before = gate_after;
                         if own && matches!(m.status & 0xF0, 0x80 | 0x90) {
                             note_traffic = true;
                         }
